@@ -35,8 +35,10 @@ def inv(h, total):
         subs = [v for c, v in h.bins] + [h.nanflow]
     elif t == "Stack":
         lv = [v.entries for c, v in h.bins]
-        for i in range(len(lv) - 1):
-            if lv[i] < lv[i + 1]: return "Stack.levels-increase"
+        th = [c for c, v in h.bins]
+        if all(th[i] <= th[i + 1] for i in range(len(th) - 1)):   # the property states it for increasing thresholds only
+            for i in range(len(lv) - 1):
+                if lv[i] < lv[i + 1]: return "Stack.levels-increase"
         if lv[0] + h.nanflow.entries != e: return "Stack.level0-plus-nanflow-differ-from-entries"
         subs = [v for c, v in h.bins] + [h.nanflow]
     elif t == "Categorize":
